@@ -332,10 +332,11 @@ def rule_rank_agree(ctx):
                     want = ('op', '<', ('sym', 'S'), ('sym', 'NEXT'))
                     okg = False
                     seen = []
+                    e = _resolve_index_locals(f, e)        # `const size_t last = end - 1;`
                     for (t, lab) in conds:
                         if lab is not True:
                             continue
-                        tt = nocast(strip_cast(_resolve_succ_locals(f, _resolve_key_locals(f, t))))
+                        tt = nocast(strip_cast(_resolve_index_locals(f, _resolve_succ_locals(f, _resolve_key_locals(f, t)))))
                         seen.append(fmt_term(tt)[:70])
                         # replace the successor term and the next key by symbols, then compare by FORM
                         for s_ in sorted(set(subterms(tt)), key=lambda z: -len(repr(z))):
@@ -1315,7 +1316,7 @@ def _seg_model(f):
             d = f.defs.get(x[2], {})
             ws = [w for w in d.get('writes', []) if f.n(w).get('op') == '=']
             if len(ws) == 1 and not d.get('init'):
-                x = strip_cast(f.term(f.n(ws[0])['ch'][1], inline=False))      # K next; if ((next = succ) < ...)
+                x = strip_cast(_resolve_index_locals(f, _resolve_key_locals(f, f.term(f.n(ws[0])['ch'][1], inline=False))))      # K next; if ((next = succ) < ...)
         yt = _pre(f, f.term(a[2], inline=False))
         if is_in_call(x) and in_arg(x) == yt:
             kind = 'plain'
